@@ -86,7 +86,7 @@ def main():
             dok, dtail = run_demo(wt, target)
             meta["demo_fails_with_change"] = not dok
             print("demo with change: %s" % ("passes (BAD)" if dok else "fails (good)"))
-            sh("git checkout -- src", cwd=wt)
+            sh("git reset -q && git checkout HEAD -- src", cwd=wt)
             dok2, dtail2 = run_demo(wt, target)
             meta["demo_passes_without_change"] = dok2
             print("demo without change: %s" % ("passes (good)" if dok2 else "fails (BAD)"))
